@@ -58,6 +58,20 @@ func (t *Tape) Used() []uint32 {
 
 func (t *Tape) Pos() int { return t.pos }
 
+// Slice returns a copy of the values drawn between two positions (past the end of a replayed tape: zeros), so that
+// a part of the run can be re-executed on exactly the same choices.
+func (t *Tape) Slice(from, to int) []uint32 {
+	res := make([]uint32, 0, to-from)
+	for i := from; i < to; i++ {
+		if i < len(t.Vals) {
+			res = append(res, t.Vals[i])
+		} else {
+			res = append(res, 0)
+		}
+	}
+	return res
+}
+
 // Draw returns an int in [0,n). n <= 1 consumes nothing.
 func (t *Tape) Draw(label string, n int) int {
 	if n <= 1 {
